@@ -20,7 +20,7 @@ ASSUMPTIONS = ["points are built by the affine model (vf/model/ec.py) from the p
 ENGINE = "hypothesis (algebraic laws)"
 TECHNIQUE = ("property-based testing (Hypothesis) of algebraic laws: bilinearity, additivity, inversion, order r, unit on infinity, refusal of off-curve input")
 _REQ = [f"{law}:{m}" for m in pc.MODULES for law in ("bilinear", "additive", "negation", "order", "infinity", "offcurve")]
-_REQ += ["additive:library_sum", "additive:library_sum_of_equal_points", "bilinear:raw_first", "bilinear:scaled", "bilinear:big_scalars", "infinity:rep", "offcurve:other_argument_infinity", "offcurve:origin", "offcurve:valid_xy_other_z"]
+_REQ += ["additive:library_sum", "additive:library_multiples", "bilinear:library_multiples", "additive:library_sum_of_equal_points", "bilinear:raw_first", "bilinear:scaled", "bilinear:big_scalars", "infinity:rep", "offcurve:other_argument_infinity", "offcurve:origin", "offcurve:valid_xy_other_z"]
 REQUIRED_LABELS = {"quick": _REQ, "thorough": _REQ}
 
 
@@ -45,6 +45,11 @@ def o_bilinear(ctx, case):
         ctx.check(pc.coeffs(M.final_exponentiate(raw)) == pc.coeffs(got), "bilinear", "raw_then_full", case,
                   f"{name}: final_exponentiate(pairing(Q, P, final_exponentiate=False)) != pairing(Q, P) for the same objects")
         ctx.label("bilinear:raw_first")
+    elif case.get("lib_mul"):
+        # bQ and aP formed by the module's own multiply() on its own generators, as a caller would
+        Mc = mod(name).m
+        got = pc.pm(name).pairing(Mc.multiply(Mc.G2, b), Mc.multiply(Mc.G1, a))
+        ctx.label("bilinear:library_multiples")
     else:
         got = _pair(name, pc.kG(curve, "G2", b), pc.kG(curve, "G1", a), case.get("sq"), case.get("sp"))
     want = pc.e0(name) ** ((a * b) % C.r)
@@ -72,7 +77,12 @@ def o_additive(ctx, case):
     M = mod(name).m
     if slot == "Q":
         Q1, Q2, Pm = pc.kG(curve, "G2", a), pc.kG(curve, "G2", b), pc.kG(curve, "G1", c)
-        if lib_sum:
+        if lib_sum and case.get("lib_mul"):
+            # both summands made by the module's own multiply() (0 and r give its own infinity), added by its add()
+            S = M.add(M.multiply(M.G2, a), M.multiply(M.G2, b))
+            lhs = pc.pm(name).pairing(S, pc.lib_pt(name, "G1", Pm, scale=pc.unscale(case.get("sp"))))
+            ctx.label("additive:library_multiples")
+        elif lib_sum:
             # the sum formed by the module's own add() on two (differently scaled) representatives
             S = M.add(pc.lib_pt(name, "G2", Q1, scale=pc.unscale(case.get("sq"))), pc.lib_pt(name, "G2", Q2))
             lhs = pc.pm(name).pairing(S, pc.lib_pt(name, "G1", Pm, scale=pc.unscale(case.get("sp"))))
@@ -81,7 +91,11 @@ def o_additive(ctx, case):
         rhs = _pair(name, Q1, Pm) * _pair(name, Q2, Pm)
     else:
         P1, P2, Qm = pc.kG(curve, "G1", a), pc.kG(curve, "G1", b), pc.kG(curve, "G2", c)
-        if lib_sum:
+        if lib_sum and case.get("lib_mul"):
+            S = M.add(M.multiply(M.G1, a), M.multiply(M.G1, b))
+            lhs = pc.pm(name).pairing(pc.lib_pt(name, "G2", Qm, scale=pc.unscale(case.get("sq"))), S)
+            ctx.label("additive:library_multiples")
+        elif lib_sum:
             S = M.add(pc.lib_pt(name, "G1", P1, scale=pc.unscale(case.get("sp"))), pc.lib_pt(name, "G1", P2))
             lhs = pc.pm(name).pairing(pc.lib_pt(name, "G2", Qm, scale=pc.unscale(case.get("sq"))), S)
         else:
@@ -257,11 +271,13 @@ def t_laws(ctx, module, shard, nb, na, nn):
     ex = []
     if shard == 0:
         ex = [{"module": name, "a": 0, "b": 5, "sq": None, "sp": None}, {"module": name, "a": r, "b": 1, "sq": None, "sp": None},
+              {"module": name, "a": 3, "b": 0, "sq": None, "sp": None, "lib_mul": True},
               {"module": name, "a": r - 1, "b": r - 1, "sq": None, "sp": None}]
     drive(ctx, f"bil{name}{shard}", st.fixed_dictionaries({"module": st.just(name), "a": sc, "b": sc, "sq": sq, "sp": sp,
-                                                           "raw_first": st.booleans()}),
+                                                           "raw_first": st.booleans(),
+                                                           "lib_mul": st.sampled_from([False, False, False, True])}),
           lambda c: o_bilinear(ctx, c), nb, ex, shrink=False)
-    small = st.one_of(st.integers(1, 40), uniform_int(1, r - 1))
+    small = st.one_of(st.integers(1, 40), uniform_int(1, r - 1), st.sampled_from([0, r]))
 
     def same_sometimes(d):
         d = dict(d)
@@ -269,12 +285,17 @@ def t_laws(ctx, module, shard, nb, na, nn):
             d["b"] = d["a"]            # P + P reached through add() with two representatives
         return d
     ex_add = []
+    # a summand that is the module's own 0*G or r*G, added to a finite point by the module's own add()
+    nsh = 2 if name.startswith("optimized") else 5
+    ex_add = [{"module": name, "a": a_, "b": b_, "c": 3, "slot": sl, "sq": None, "sp": None, "lib_sum": True, "lib_mul": True}
+              for sl in ("Q", "P") for a_, b_ in ((0, 5), (5, 0), (r, 2))][shard::nsh]
     if name.startswith("optimized"):
-        ex_add = [{"module": name, "a": 5, "b": 5, "c": 3, "slot": sl, "sq": [1, 1], "sp": 2, "lib_sum": True}
-                  for sl in ("Q", "P")][shard:shard + 1]
+        ex_add += [{"module": name, "a": 5, "b": 5, "c": 3, "slot": sl, "sq": [1, 1], "sp": 2, "lib_sum": True}
+                   for sl in ("Q", "P")][shard:shard + 1]
     drive(ctx, f"add{name}{shard}", st.fixed_dictionaries({"module": st.just(name), "a": small, "b": small, "c": small,
                                                            "slot": st.sampled_from(["Q", "P"]), "sq": sq, "sp": sp,
-                                                           "lib_sum": st.booleans(), "same": st.sampled_from([False, False, True])}
+                                                           "lib_sum": st.booleans(), "lib_mul": st.sampled_from([False, False, True]),
+                                                           "same": st.sampled_from([False, False, True])}
                                                           ).map(same_sometimes),
           lambda c: o_additive(ctx, c), na, ex_add, shrink=False)
     drive(ctx, f"neg{name}{shard}", st.fixed_dictionaries({"module": st.just(name), "a": small, "b": small, "sq": sq, "sp": sp}),
